@@ -26,6 +26,7 @@ type freeIn struct {
 	Opens    [2]int `json:"opens"`
 	MaxBytes int    `json:"maxbytes"`
 	ZeroRead int    `json:"zeroread"` // percent of reads with an empty buffer
+	Racers   int    `json:"racers"`   // percent of streams with a goroutine changing deadlines under the reader/writer
 }
 
 func randomFree(rng *rand.Rand, seed int64) freeIn {
@@ -34,6 +35,7 @@ func randomFree(rng *rand.Rand, seed int64) freeIn {
 		W: ws[rng.Intn(len(ws))], B: []int{1, 2, 8}[rng.Intn(3)], Bufs: []int{1, 2, 5}[rng.Intn(3)],
 		Cap: []int{0, 0, 16, 256}[rng.Intn(4)], Hb: []int{0, 0, 2}[rng.Intn(3)],
 		MaxBytes: []int{20, 60, 160}[rng.Intn(3)], ZeroRead: []int{0, 10, 25}[rng.Intn(3)]}
+	in.Racers = []int{0, 50, 100}[rng.Intn(3)]
 	in.Opens[0] = 1 + rng.Intn(4)
 	in.Opens[1] = rng.Intn(4)
 	if in.W <= 3 && in.MaxBytes > 60 {
@@ -84,7 +86,9 @@ func (x *freeRun) writer(e, sid int, st *multiplexing.Stream) {
 		x.add(map[string]any{"ev": "Ret", "e": e, "op": "write", "s": sid, "sid": 0, "k": n, "n": k,
 			"d": []int{}, "err": errKind(err), "t": nowMs()})
 		pos += k
-		if ek := errKind(err); ek != "" && ek != "timeout" {
+		if ek := errKind(err); ek == "timeout" {
+			time.Sleep(200 * time.Microsecond)
+		} else if ek != "" {
 			return
 		}
 	}
@@ -138,16 +142,61 @@ func (x *freeRun) reader(e, sid int, st *multiplexing.Stream) {
 		x.add(map[string]any{"ev": "Ret", "e": e, "op": "read", "s": sid, "sid": 0, "k": k, "n": n,
 			"d": ints(buf[:n]), "err": errKind(err), "t": nowMs()})
 		got += n
-		if ek := errKind(err); ek != "" && ek != "timeout" {
+		if ek := errKind(err); ek == "timeout" {
+			time.Sleep(200 * time.Microsecond)
+		} else if ek != "" {
 			return
 		}
 	}
+}
+
+// racer changes the deadlines of a stream while its reader and writer are at
+// work (past, far future, near future that passes), clearing them again each
+// time, so that blocked calls are ended through every deadline branch and the
+// stream is used again afterwards.
+func (x *freeRun) racer(e, sid int, st *multiplexing.Stream) {
+	defer x.wg.Done()
+	rng := x.rngFor(e, sid, 3)
+	n := 3 + rng.Intn(8)
+	set := func(op string, mode int) {
+		var dl time.Time
+		switch mode {
+		case 1:
+			dl = time.Now().Add(-time.Second)
+		case 2:
+			dl = time.Now().Add(time.Hour)
+		case 3:
+			dl = time.Now().Add(time.Duration(200+rng.Intn(800)) * time.Microsecond)
+		}
+		var err error
+		switch op {
+		case "setwd":
+			err = st.SetWriteDeadline(dl)
+		case "setrd":
+			err = st.SetReadDeadline(dl)
+		}
+		x.add(map[string]any{"ev": "Ret", "e": e, "op": op, "s": sid, "sid": 0, "k": mode, "n": 0,
+			"d": []int{}, "err": errKind(err), "t": nowMs()})
+	}
+	for i := 0; i < n; i++ {
+		time.Sleep(time.Duration(rng.Intn(900)) * time.Microsecond)
+		op := []string{"setwd", "setrd"}[rng.Intn(2)]
+		set(op, 1+rng.Intn(3))
+		time.Sleep(time.Duration(rng.Intn(1500)) * time.Microsecond)
+		set(op, 0)
+	}
+	set("setwd", 0)
+	set("setrd", 0)
 }
 
 func (x *freeRun) serve(e, sid int, st *multiplexing.Stream) {
 	x.wg.Add(2)
 	go x.writer(e, sid, st)
 	go x.reader(e, sid, st)
+	if x.rngFor(e, sid, 4).Intn(100) < x.in.Racers {
+		x.wg.Add(1)
+		go x.racer(e, sid, st)
+	}
 }
 
 func runFree(cid string, in freeIn) *recorder {
